@@ -44,7 +44,8 @@ FLOORS = {"quick": {"steps_compared": 2500, "digests_compared": 2500,
                        "mutations": 200000, "import_steps": 150000}}
 N_SEQ = {"quick": 2560, "thorough": 150000}
 KINDS = ["valid", "valid", "syntax", "matching", "conversion", "sectiondt",
-         "import", "import", "override", "mutate", "mutate"]
+         "import", "import", "import-broken", "override", "mutate",
+         "mutate"]
 
 SDT_TYPE = {"kind": "section", "name": "sdt", "keytype": None,
             "datatype": None, "raw_datatype": "zcverif_dt.fam.needs_marker",
@@ -94,6 +95,15 @@ class World:
             space.write(name, {"component.xml": packages.component_xml(
                 ctypes, self.base)})
             self.components.append((name, ctypes))
+        # a component whose second type is broken (extends an unknown
+        # type): importing it must fail every time, on any schema
+        self.broken = space.new_name("broken")
+        btypes = packages.gen_component_types(rng, model, "bk", 2)
+        btypes[1]["extends"] = "no-such-base-type"
+        btypes[1]["children"] = []
+        space.write(self.broken, {"component.xml": packages.component_xml(
+            btypes, self.base)})
+        self.broken_types = btypes
         self.xml = family.render_xml(
             model, abstract_import=(self.base, "abstract.xml")
             if abstracts else None)
@@ -142,6 +152,12 @@ def make_step(rng, w, kind):
             t = ctypes[0]
             tree["items"].insert(0, ["s", texts.mknode(t["name"], None,
                                                        "empty")])
+    elif kind == "import-broken":
+        tree["items"].insert(0, ["raw", "%import " + w.broken])
+        t = w.broken_types[0]
+        if rng.random() < 0.7:
+            tree["items"].append(["s", texts.mknode(
+                t["name"], rng.choice([None, "bk1"]), "empty")])
     elif kind == "override":
         specs, _ = overrides.gen_specs(rng, w.res, tree)
         step["overrides"] = specs
@@ -243,9 +259,13 @@ def only_implementer_growth(problem, w, steps):
     added to abstract types, all of them types defined by the generated
     components."""
     kind, idx, before, after = problem
-    if kind != "schema-changed" or steps[idx]["kind"] != "import":
+    if kind != "schema-changed" or steps[idx]["kind"] not in (
+            "import", "import-broken"):
         return False
     comp_types = set(t["name"] for _, ts in w.components for t in ts)
+    # (a component that fails half-way has already registered the
+    # implementers it defined before the failure)
+    comp_types |= set(t["name"] for t in getattr(w, "broken_types", []))
     for (p, a), (_, b) in zip(before, after):
         parts = p.strip("/").split("/")
         if len(parts) < 3 or parts[0] != "types" or \
@@ -275,6 +295,7 @@ def run_case(ctx, w, steps):
         return
     case = {"xml": w.xml, "model": w.model,
             "components": [[n, ts] for n, ts in w.components],
+            "broken": [w.broken, w.broken_types],
             "steps": steps}
     neutral = None
     for pr in problems:
@@ -283,7 +304,8 @@ def run_case(ctx, w, steps):
             # neutraliser: the same history without its %import steps must
             # leave the schema untouched
             if neutral is None:
-                plain = [s for s in steps if s["kind"] != "import"]
+                plain = [s for s in steps
+                         if s["kind"] not in ("import", "import-broken")]
                 neutral = not run_history(ctx, w, plain, record=False)
             if neutral:
                 mech = "import-adds-implementers-to-application-schema"
@@ -343,6 +365,10 @@ def replay(ctx, case):
         for n, ts in w.components:
             space.write(n, {"component.xml": packages.component_xml(
                 ts, base.group(1) if base else None)})
+        if case.get("broken"):
+            w.broken, w.broken_types = case["broken"]
+            space.write(w.broken, {"component.xml": packages.component_xml(
+                w.broken_types, base.group(1) if base else None)})
         import ZConfig
         w.fresh = lambda: ZConfig.loadSchemaFile(io.StringIO(w.xml))
         for pr in run_history(ctx, w, case["steps"], record=False):
